@@ -356,6 +356,8 @@ def run(ck, progs):
         ck.floor("R05l", n, 120, "decided heap accesses")
         n = ck.attempt(r05j, ck, prog)
         ck.floor("R05j", n, 12, "counted appends")
+        n = ck.attempt(r05j_local, ck, prog)
+        ck.floor("R05j", n, 3, "local-counter accesses of growable arrays")
         n = ck.attempt(r05k, ck, prog)
     from ..controls import run_control
     run_control(ck, ck.work, "R05j", "c05.c", lambda c, p: r05j(c, p, table=[("gbuf", ("items",), "n", "cap")]), "r05j")
@@ -1533,3 +1535,71 @@ def r05p(ck, prog):
                              "%s fills a slot of the array that replaces msa->sequences with NULL: the record the old array held "
                              "there is neither carried over nor released (leak on the success path)" % F.name, prog.config)
     ck.floor("R05p", n, 1, "replacements of msa->sequences")
+
+
+def r05j_local(ck, prog, functions=None, table=None):
+    """growable arrays indexed by a local counter that the loop increments itself (not bounded by the loop
+    condition): the element access must not be reachable from the increment / the loop entry without a comparison
+    that involves the capacity field (sibling rule: read_clu tests alloc_numseq before sequences[active_seq])"""
+    n_inst = 0
+    for rec, bufs, cnt, cap in (table or GROWABLE):
+        for F in (functions or prog.all_functions):
+            if "/tests/" in F.file or F.cfg is None:
+                continue
+            cfg = F.cfg
+            for sub in F.body.find("ArraySubscriptExpr"):
+                b = sub.kids[0].strip(casts=True)
+                if not (b.k == "MemberExpr" and b.d.get("rec") == rec and b.d["field"] in bufs):
+                    continue
+                v = sub.kids[1].strip(casts=True)
+                if not (v.k == "DeclRefExpr" and v.d.get("dk") == "Var" and not v.d.get("g")):
+                    continue
+                loops = [a for a in sub.ancestors() if a.k in ("ForStmt", "WhileStmt", "DoStmt")]
+                if not loops:
+                    continue
+                incs = []
+                for lp in loops:
+                    for u in lp.find("UnaryOperator"):
+                        if u.d["op"] == "++" and u.kids[0].strip().k == "DeclRefExpr" and u.kids[0].strip().d["did"] == v.d["did"]:
+                            # the increment clause of a counted for-loop is bounded by that loop's condition
+                            q = u
+                            while q.parent is not None and q.parent.k in ("ParenExpr", "ImplicitCastExpr"):
+                                q = q.parent
+                            if q.role == "inc" and q.parent is not None and q.parent.k == "ForStmt":
+                                continue
+                            incs.append((u, lp))
+                if not incs:
+                    continue
+                # bounded by the loop condition against the count / capacity field?  then not this rule's business
+                bounded = False
+                for lp in loops:
+                    c = lp.child("cond")
+                    if c is not None and any(r.d["did"] == v.d["did"] for r in c.find("DeclRefExpr")) and \
+                            any(m.d.get("rec") == rec and m.d["field"] in (cnt, cap) for m in c.find("MemberExpr")):
+                        bounded = True
+                if bounded:
+                    continue
+                owner = b.kids[0].text() if b.kids else "?"
+                checks = []
+                for x in F.body.find("BinaryOperator"):
+                    if x.d["op"] in ("==", ">=", "<=", ">", "<", "!=") and any(
+                            m.d.get("rec") == rec and m.d["field"] == cap and m.kids and m.kids[0].text() == owner for m in x.find("MemberExpr")):
+                        checks.append(cfg.position(x))
+                checks = [c for c in checks if c is not None]
+                n_inst += 1
+                where = site(prog, sub, sub.text()[:40])
+                ck.inst("R05j", where, "%s: %s indexed by local counter %s; %d capacity test(s) against %s" % (
+                    F.name, b.text(), v.text(), len(checks), cap), prog.config)
+                up_ = cfg.position(sub)
+                bad = None
+                for u, lp in incs:
+                    if cfg.reaches(cfg.position(u), up_, avoid=checks):
+                        bad = u
+                        break
+                if bad is not None:
+                    ck.violation("R05j", "R05j/%s/%s[%s]" % (F.name, b.d["field"], v.text()), where,
+                                 "%s is indexed by %s, which the loop keeps incrementing (%s), without a test against %s on the way "
+                                 "back to this access: enough input rows run past the allocation (the sibling reader tests the "
+                                 "capacity first)" % (b.text(), v.text(), site(prog, bad), cap), prog.config,
+                                 path=[site(prog, bad), where])
+    return n_inst
